@@ -72,11 +72,12 @@ def encode(asc, style):
                     a, b = b, a % b
                 common = common * pp["qdivs"][0][1] // a
             ppq_attr = ' ppq="%d"' % common
+        sd_id = nid("stdef")
         if style["attr_defs"]:
-            out.append('<staffDef xml:id="%s" n="%d" lines="5"%s clef.shape="%s" clef.line="%d" key.sig="%s"/>' % (nid("stdef"), n, ppq_attr, clef["sign"], clef["line"], sig))
+            out.append('<staffDef xml:id="%s" n="%d" lines="5"%s clef.shape="%s" clef.line="%d" key.sig="%s"/>' % (sd_id, n, ppq_attr, clef["sign"], clef["line"], sig))
         else:
-            out.append('<staffDef xml:id="%s" n="%d" lines="5"%s><clef xml:id="%s" shape="%s" line="%d"/><keySig xml:id="%s" sig="%s"/><meterSig xml:id="%s" count="%d" unit="%d"/></staffDef>' % (nid("stdef"), n, ppq_attr, nid("clef"), clef["sign"], clef["line"], nid("ks"), sig, nid("ms"), ts0["beats"], ts0["beat_type"]))
-        expected.append({"part": pi, "staff": st, "n": n, "notes": [], "voices": {}, "measures": [gen.quarter_pos(p, m["s"]) for m in p["measures"]], "meter": (ts0["beats"], ts0["beat_type"]), "timesigs": [(gen.quarter_pos(p, t["t"]), t["beats"], t["beat_type"]) for t in p["timesigs"]], "key": f, "clef": (clef["sign"], clef["line"])})
+            out.append('<staffDef xml:id="%s" n="%d" lines="5"%s><clef xml:id="%s" shape="%s" line="%d"/><keySig xml:id="%s" sig="%s"/><meterSig xml:id="%s" count="%d" unit="%d"/></staffDef>' % (sd_id, n, ppq_attr, nid("clef"), clef["sign"], clef["line"], nid("ks"), sig, nid("ms"), ts0["beats"], ts0["beat_type"]))
+        expected.append({"part": pi, "staff": st, "n": n, "def_id": sd_id, "notes": [], "voices": {}, "measures": [gen.quarter_pos(p, m["s"]) for m in p["measures"]], "meter": (ts0["beats"], ts0["beat_type"]), "timesigs": [(gen.quarter_pos(p, t["t"]), t["beats"], t["beat_type"]) for t in p["timesigs"]], "key": f, "clef": (clef["sign"], clef["line"])})
     out.append("</staffGrp></scoreDef>")
     out.append('<section xml:id="sec1">')
     xmlid = {}
